@@ -27,7 +27,7 @@ ASSUMPTIONS = [
     "an old handle may be revived: modelx re-uses the interface object when an instance with the same arguments is "
     "re-created; the statement allows exactly that",
 ]
-DEPTH = {"quick": 3, "thorough": 4}
+DEPTH = {"quick": 3, "thorough": 3}       # thorough: depth 3 on every root (quick: 3 on two roots, 2 on the others)
 
 
 def py(code, edit=True):
@@ -292,6 +292,8 @@ def run_item(item, tier):
     depth = DEPTH[tier]
     if tier == "quick" and rn not in ("one", "nested"):
         depth -= 1
+    if tier == "thorough" and rn == "one" and not item["first"].get("edit", True):
+        depth += 1      # depth 4 below the evaluation / instantiation ops of the richest root
     res = bfs.explore(lambda h: run_history(rn, h), lambda h, i: alpha, depth, prefix=[item["first"]],
                       merge=False)
     res.samples = [{"root": rn, "history": h} for h in res.samples[:1]]
